@@ -533,6 +533,7 @@ package eval
 
 //@ func parser.parseExpression C06 C01
 //@   requires [parser] (and (PARSER $p) (LEAFPARSERS $p))
+//@   ensures [tree-or-error] (=> (= $ret1 ENil) (not (= $ret0 0)))
 //@   dyncallees parser.parseInt parser.parseStr parser.parseConst parser.parseVariable parser.parseUnknownVariable parser.parseList.$1
 
 //@ func parser.parseInt C06 C01
@@ -755,6 +756,21 @@ package eval
 //@   ensures [same-costs] (and (SAMEDOM $ret0 $origin CostsMap) (SAMEVAL $ret0 $origin CostsMap))
 //@   ensures [caller-maps-untouched] (ALLOLDMAPS)
 //@   ensures [stateless-len] (= (len (fld $ret0 StatelessOperators)) (ite (= $origin 0) 0 (old (len (fld $origin StatelessOperators)))))
+
+// C08 / C02 / C06 — the parser works on its OWN configuration: newParser deep-copies the caller's config (CopyConfig by
+// contract), so directives parsed from the source are written into the copy; it starts with no tokens at position 0 and
+// satisfies the precondition PARSER of every parser function.
+//@ func newParser C08 C02 C06
+//@   requires [origin-maps] (=> (not (= $cc 0)) (and (allocated (fld $cc ConstantMap)) (allocated (fld $cc VariableKeyMap)) (allocated (fld $cc OperatorMap))
+//@        (allocated (fld $cc CompileOptions)) (allocated (fld $cc CostsMap)) (allocated (fld $cc StatelessOperators))))
+//@   ensures [private-config] (and (not (= $ret0 0)) (fresh $ret0) (not (= (fld $ret0 conf) 0)) (fresh (fld $ret0 conf)) (not (= (fld $ret0 conf) $cc))
+//@        (fresh (fld (fld $ret0 conf) CompileOptions)) (fresh (fld (fld $ret0 conf) ConstantMap)) (fresh (fld (fld $ret0 conf) VariableKeyMap)) (fresh (fld (fld $ret0 conf) OperatorMap)) (fresh (fld (fld $ret0 conf) CostsMap)))
+//@   ensures [ready] (and (PARSER $ret0) (= (fld $ret0 source) $source) (= (len (fld $ret0 tokens)) 0) (= (fld $ret0 idx) 0))
+//@   ensures [same-options] (and (SAMEDOM (fld $ret0 conf) $cc CompileOptions) (SAMEVAL (fld $ret0 conf) $cc CompileOptions))
+//@   ensures [same-operators] (and (SAMEDOM (fld $ret0 conf) $cc OperatorMap) (SAMEVAL (fld $ret0 conf) $cc OperatorMap))
+//@   ensures [same-varkeys] (and (SAMEDOM (fld $ret0 conf) $cc VariableKeyMap) (SAMEVAL (fld $ret0 conf) $cc VariableKeyMap))
+//@   ensures [same-constants] (and (SAMEDOM (fld $ret0 conf) $cc ConstantMap) (SAMEVAL (fld $ret0 conf) $cc ConstantMap))
+//@   ensures [caller-maps-untouched] (ALLOLDMAPS)
 
 // ---------------------------------------------------------------------------
 // TryEval under WF + the parent-table facts its climbing loop uses (C04 C05 C06 C07 C09).
